@@ -26,6 +26,7 @@ NOTES={('C14','c'):'Not detected, by design: whether the arguments of a wrong-ar
        ('C06','y'):'Not detected, by design: the same refactoring as C16-z (a shared comma-list helper that no longer accepts a comma after the last property of an object literal); see there and C19-u.',
        ('C19','z'):'Not detected, by design: the scope-storage rewrite keeps the FIRST definition when a function is declared a second time in one scope (or after a variable of that name). What a second function declaration of an already bound name means is pinned by no property (C03 speaks of ধরি redeclarations only) and the model has refused such programs from the start; variable redeclaration, shadowing, closures and every lookup are unchanged by the rewrite.',
        ('C01','B'):'Not detected by C01, caught by C08 (cli-reject) and C19 (frontend-reject-expected): the refactoring makes main.go decide "rejected" from the parser\'s error alone, so a text whose only errors are lexical (a byte-order mark, a stray character, an unterminated comment) is run. C01 quantifies over token sequences the parser accepts; such texts have no token sequence, and rejecting them without running anything is what C08 and C19 pin.',
+       ('C14','F'):'Not detected, by design: the Callable API change makes a wrong argument count on a variadic built-in fail before its arguments are evaluated. As for C14-c, whether the arguments of a wrong-arity call are evaluated before the arity error is pinned nowhere; the model treats wrong-arity calls with impure arguments as out of domain. Correct calls, and wrong-arity calls with pure arguments, behave as before.',
        ('C13','c'):'With this change the repository\'s own flaky (non-baseline) parser test Object_Literal fails intermittently; the 157 stable tests pass.'}
 for (p,x),m in res.items():
     d=f'{V}/seeded/{p}-{x}'
@@ -35,7 +36,7 @@ for (p,x),m in res.items():
     meta['confirmed']={'applies_and_compiles':True,'repo_test_failures_with_change':int(m.group(5)),'demo_exit_without_change':int(m.group(3)),'demo_exit_with_change':int(m.group(4)),
       'how':f'tools/mutcheck.sh {p} {x} — fresh scratch worktree of /repo HEAD under /tmp, demo.sh run before and after `git apply patch.diff`, `go build ./...`, `go test -vet=off -count=1 ./...`, then ./vcheck with VERIF_REPO pointing at the worktree; worktree removed afterwards'}
     meta['checks_run']={c:{'quick_exit':int(rc),'first_signature':sig} for c,rc,sig in re.findall(r'(C\d+)=rc(\d)\[([^\]]*)\]',m.group(6))}
-    meta['source']='independent sub-agent given only the property text and a scratch worktree (round %d)'%({'a':1,'b':1,'c':2,'d':2,'e':3,'f':3,'g':4,'h':4,'i':5,'j':5,'k':6,'l':6,'m':7,'n':7,'o':8,'p':8,'q':9,'r':9,'s':10,'t':10,'u':11,'v':11,'w':12,'x':12,'y':13,'z':13,'A':14,'B':14}.get(x,0))
+    meta['source']='independent sub-agent given only the property text and a scratch worktree (round %d)'%({'a':1,'b':1,'c':2,'d':2,'e':3,'f':3,'g':4,'h':4,'i':5,'j':5,'k':6,'l':6,'m':7,'n':7,'o':8,'p':8,'q':9,'r':9,'s':10,'t':10,'u':11,'v':11,'w':12,'x':12,'y':13,'z':13,'A':14,'B':14,'E':15,'F':15}.get(x,0))
     if (p,x) in NOTES: meta['note']=NOTES[(p,x)]
     json.dump(meta,open(d+'/meta.json','w'),indent=1,ensure_ascii=False)
 rows=[]
